@@ -56,8 +56,18 @@ func C08(c *Ctx) {
 	const r2 = "K1.vlog-sync-when-SyncWrites"
 	c.Rule(r2, "valueLog.write: under SyncWrites (true edge) Manager.SyncFIDs is called for the touched buckets and its error, like AppendEntries', reaches the error return; DB.vlog reads go through Manager.ReadValue")
 	if fn := c.Fn("", "valueLog.write"); fn != nil {
-		sf := need(c, r2, fn, false, "SyncFIDs", Named("vlog.(*Manager).SyncFIDs"), 1)
+		isSync := func(ci ssa.CallInstruction) bool { return Named("vlog.(*Manager).SyncFIDs")(ci.Common()) }
+		sf := effectSites(c, fn, isSync, 2)
+		c.Decide(len(sf) >= 1, r2, key(fn, "has:SyncFIDs"), fn.Pos(), len(sf)+1, "value log is synced (directly or through a helper)", "valueLog.write no longer calls Manager.SyncFIDs (directly or through a same-package helper)")
 		for i, s := range sf {
+			// inside a helper the SyncFIDs error must reach the helper's error result
+			if !isSync(s) {
+				if h := StaticFn(s.Common()); h != nil {
+					for j, inner := range Calls(h, false, Named("vlog.(*Manager).SyncFIDs")) {
+						errPropagated(c, r2, key(h, fmt.Sprintf("SyncFIDs[%d]#error-propagated", j+1)), h, inner)
+					}
+				}
+			}
 			dom := false
 			for e := range boolFieldEdges(fn, "NoKV.Options", "SyncWrites", true) {
 				if EdgeDominates(e[0], e[1], s.Block()) {
@@ -434,6 +444,7 @@ func C11(c *Ctx) {
 	gcLivenessGroup(c, r2)
 	const r4 = "K1.compaction-keeps-every-entry"
 	compactionKeepsAllGroup(c, r4)
+	levelDisjointGroup(c, "K2.level-tables-disjoint")
 	const r3 = "K3.lsm-set-callers"
 	c.Rule(r3, "LSM.Set (single-entry write path) has no caller in non-test module code other than none; memTable.setBatch is called only from LSM.SetBatch / memTable.Set")
 	if f := c.Fn("lsm", "LSM.Set"); f != nil {
